@@ -105,11 +105,12 @@ class CaseAPI:
     def prove(self, clause, f, **info):
         self.ctx.prove(f"{self.case_id}:{clause}", f, info)
 
-    def prove_identity(self, clause, lhs, rhs, assumptions=None, **info):
+    def prove_identity(self, clause, lhs, rhs, assumptions=None, cas_first=False, **info):
         """lhs == rhs between real terms; if the SMT solver cannot close it, the CAS back end
         (sympy, see engine/cas.py) is asked; `assumptions`: {symbol name: {positive: True, range: (a, b)}}"""
         info = dict(info)
         info["_cas"] = (lhs, rhs, assumptions or {})
+        info["_cas_first"] = cas_first
         self.ctx.prove(f"{self.case_id}:{clause}", lhs == rhs, info)
 
     def instantiate_facts(self, index_tuples):
@@ -377,8 +378,18 @@ def run_case(cd: CaseDef, params, case_id):
             smt_sample = None
             for ob in obs:
                 n_paths += 1
-                st, md, dt, backend = solve_vc(ob.pc, ob.formula, cd.solver_timeout, symbols)
-                if st != "unsat" and ob.info.get("_cas") is not None:
+                st = None
+                if ob.info.get("_cas") is not None and ob.info.get("_cas_first"):
+                    # large polynomial identities: the CAS normal form is much faster than the SMT solver's nonlinear core
+                    from . import cas
+                    lhs, rhs, asm = ob.info["_cas"]
+                    tc = time.time()
+                    ok, why = cas.prove_identity(lhs, rhs, asm)
+                    if ok:
+                        st, md, dt, backend = "unsat", None, time.time() - tc, "sympy"
+                if st is None:
+                    st, md, dt, backend = solve_vc(ob.pc, ob.formula, cd.solver_timeout, symbols)
+                if st != "unsat" and ob.info.get("_cas") is not None and not ob.info.get("_cas_first"):
                     from . import cas
                     lhs, rhs, asm = ob.info["_cas"]
                     tc = time.time()
